@@ -537,7 +537,7 @@ c18!(c18_truncate_inv_grow200_unsync_opt, Optimistic, 1, 2, Some(200), 0, 4);
 
 /// history: a(A bytes) b(8 bytes) [c(rest) if FILL]; release a (becomes a free segment when A >= 16);
 /// truncate(n) with n symbolic; then one symbolic request.
-pub(crate) fn c18_hist<const A: u32, const FILL: bool>(fl: Freelist, unify: bool, nmax: usize, fixed: Option<usize>, fixed_m: Option<u32>) {
+pub(crate) fn c18_hist<const A: u32, const FILL: bool>(fl: Freelist, unify: bool, nmax: usize, fixed: Option<usize>, fixed_m: Option<u32>, follow: bool) {
   const CAP: u32 = 64;
   let mut arena: unsync::Arena = Options::new().with_capacity(CAP).with_unify(unify).with_freelist(fl).with_minimum_segment_size(4).alloc::<unsync::Arena>().unwrap();
   let dofs = arena.data_offset() as u32;
@@ -579,6 +579,13 @@ pub(crate) fn c18_hist<const A: u32, const FILL: bool>(fl: Freelist, unify: bool
   assert!(arena.remaining() == newcap - a0, "C18: remaining() follows the new capacity");
   assert!(unsafe { rd8(arena.raw_ptr(), x) } == before, "C18: every byte below allocated() unchanged (header, free list, data)");
   assert!(arena.get_u8(bo as usize).unwrap() == v, "C18: live data survives truncate");
+  if !follow {
+    // (the follow-up allocation is exercised by the `*_follow` harnesses; with two backing objects alive in the
+    //  formula it is what makes CBMC run out of memory)
+    kani::cover!(fixed.is_some() || n < a0, "floored at allocated");
+    core::mem::forget(arena);
+    return;
+  }
   // afterwards allocations succeed exactly when they fit the new capacity, or the list serves them
   let m: u32 = match fixed_m {
     Some(v) => v,
@@ -616,26 +623,39 @@ macro_rules! c18h {
     #[kani::proof]
     #[kani::unwind(4)]
     fn $name() {
-      c18_hist::<$a, $fill>(Freelist::$fl, $unify, $nmax, $fixed, None);
+      c18_hist::<$a, $fill>(Freelist::$fl, $unify, $nmax, $fixed, None, true);
     }
   };
   ($name:ident, $a:expr, $fill:expr, $fl:ident, $unify:expr, $nmax:expr, $fixed:expr, m $m:expr) => {
     #[kani::proof]
     #[kani::unwind(4)]
     fn $name() {
-      c18_hist::<$a, $fill>(Freelist::$fl, $unify, $nmax, $fixed, Some($m));
+      c18_hist::<$a, $fill>(Freelist::$fl, $unify, $nmax, $fixed, Some($m), true);
+    }
+  };
+  ($name:ident, $a:expr, $fill:expr, $fl:ident, $unify:expr, $nmax:expr, $fixed:expr, nofollow) => {
+    #[kani::proof]
+    #[kani::unwind(4)]
+    fn $name() {
+      c18_hist::<$a, $fill>(Freelist::$fl, $unify, $nmax, $fixed, None, false);
     }
   };
 }
 // quick: concrete new sizes (below the cursor, equal to the capacity, growing), everything else symbolic
-// @h props=C18,C08 tier=quick timeout=1800 mem=28 bounds=CAP=64,unify,history=a(24)b(8)c(rest)-drop(a),n=80(grow),m=12(fits-grown-space)
+// @h props=C18 tier=quick timeout=1800 mem=28 bounds=CAP=64,unify,history=a(24)b(8)c(rest)-drop(a),n=80(grow),state-only
+c18h!(c18_truncate_full_unify_opt_grow80, 24, true, Optimistic, true, 0, Some(80), nofollow);
+// @h props=C18,C08 tier=thorough timeout=1800 mem=28 bounds=CAP=64,unify,history=a(24)b(8)c(rest)-drop(a),n=80(grow),m=12(fits-grown-space)
 c18h!(c18_truncate_full_unify_opt_grow80_m12, 24, true, Optimistic, true, 0, Some(80), m 12);
 // @h props=C18 tier=thorough timeout=1800 mem=28 bounds=CAP=64,unify,history=a(24)b(8)c(rest)-drop(a),n=80(grow),m=17(one-byte-too-many)
 c18h!(c18_truncate_full_unify_opt_grow80_m17, 24, true, Optimistic, true, 0, Some(80), m 17);
-// @h props=C18 tier=quick timeout=1800 mem=28 bounds=CAP=64,plain,history=a(24)b(8)c(rest)-drop(a),n=10(floored-at-allocated)
-c18h!(c18_truncate_full_plain_pess_floor, 24, true, Pessimistic, false, 0, Some(10));
-// @h props=C18 tier=quick timeout=1800 mem=28 bounds=CAP=64,unify,history=a(20)b(8)-drop(a),n=48(shrink)
-c18h!(c18_truncate_part_unify_opt_shrink48, 20, false, Optimistic, true, 0, Some(48));
+// @h props=C18 tier=quick timeout=1800 mem=28 bounds=CAP=64,plain,history=a(24)b(8)c(rest)-drop(a),n=10(floored-at-allocated),state-only
+c18h!(c18_truncate_full_plain_pess_floor, 24, true, Pessimistic, false, 0, Some(10), nofollow);
+// @h props=C18 tier=thorough timeout=1800 mem=28 bounds=CAP=64,plain,history=a(24)b(8)c(rest)-drop(a),n=10(floored-at-allocated),follow-up-request
+c18h!(c18_truncate_full_plain_pess_floor_follow, 24, true, Pessimistic, false, 0, Some(10));
+// @h props=C18 tier=quick timeout=1800 mem=28 bounds=CAP=64,unify,history=a(20)b(8)-drop(a),n=48(shrink),state-only
+c18h!(c18_truncate_part_unify_opt_shrink48, 20, false, Optimistic, true, 0, Some(48), nofollow);
+// @h props=C18 tier=thorough timeout=1800 mem=28 bounds=CAP=64,unify,history=a(20)b(8)-drop(a),n=48(shrink),follow-up-request
+c18h!(c18_truncate_part_unify_opt_shrink48_follow, 20, false, Optimistic, true, 0, Some(48));
 // thorough: the new size symbolic as well (a symbolic-sized backing allocation: 13 min / 20 GB class queries)
 // @h props=C18,C08 tier=thorough timeout=2400 mem=28 bounds=CAP=64,plain,history=a(24)b(8)c(rest)-drop(a),n<=96:symbolic
 c18h!(c18_truncate_full_plain_pess, 24, true, Pessimistic, false, 96, None);
@@ -643,8 +663,8 @@ c18h!(c18_truncate_full_plain_pess, 24, true, Pessimistic, false, 96, None);
 c18h!(c18_truncate_full_unify_opt, 24, true, Optimistic, true, 96, None);
 // @h props=C18 tier=thorough timeout=1800 mem=28 bounds=CAP=64,unify,history=a(9)b(8)-drop(a):too-small,n=70 optcover=served_by_list_after_truncate
 c18h!(c18_truncate_part_unify_small, 9, false, Optimistic, true, 0, Some(70));
-// @h props=C18 tier=thorough timeout=1800 mem=28 bounds=CAP=64,unify,list=None,n=70 optcover=served_by_list_after_truncate
-c18h!(c18_truncate_part_unify_none, 20, false, None, true, 0, Some(70));
+// @h props=C18,C08 tier=quick timeout=1800 mem=28 bounds=CAP=64,unify,list=None,n=70(grow),follow-up-request<=48 optcover=served_by_list_after_truncate
+c18h!(c18_truncate_part_unify_none_follow, 20, false, None, true, 0, Some(70));
 
 // =============================================================================================
 // C09 (read-only half): every mutating call of the safe API is refused and the memory never changes
